@@ -153,6 +153,33 @@ CHECKS.update({
    note=TB_B),
 })
 
+TB_B3 = ("Trusted: Coq 8.16.1 kernel, Coq Interval/Coquelicot/Flocq (each verdict is a kernel-checked lemma proved by interval / integral_intro / "
+         "vm_compute), coq_meta/Meta.v (complete proofs; axioms: stdlib reals sig_forall_dec, sig_not_dec, functional_extensionality_dep, classic; "
+         "zfact_is_factorial closed), Uint63 primitives of Interval; harness/specb.py + the property module (reference registry: a wrong closed "
+         "form is a wrong oracle; generators; untrusted numerics only choose tactic parameters). References are textbook closed forms / integral "
+         "representations listed in evidence.assumptions; everything outside the listed sub-domain is NOT decided. Metamorphic certificates can "
+         "only refute (residual > bound implies one of the named calls is outside tolerance, by a Coq-proved lemma); a consistent residual is not a pass.")
+CHECKS.update({
+ "C18": dict(level="exploration", engine="B", technique="per-instance Coq certificates |y-ref| <= 2^(8-p)|ref| at integer/half-integer arguments (exact Z with Coq-evaluated verified factorial up to 4000!, Interval for sqrt PI / ln / PI^k forms), pole decision table, and metamorphic residual certificates (gamma recurrence, reflection, duplication; rgamma, factorial, loggamma, digamma, polygamma, beta recurrences) with soundness lemmas in coq_meta/Meta.v",
+   text="gamma, rgamma, loggamma, factorial at integers up to 1500 (4000 thorough, so the Taylor/Stirling branches are exercised) and at half-integers n+1/2 with n in [-40, 600]; fac2 at integers; beta, binomial, rf, ff, gammaprod at (half-)integers; rf/ff with integer n at arbitrary dyadic x; superfac, hyperfac, barnesg at integers; harmonic at integers and half-integers; polygamma of odd order at (half-)integers; rgamma exactly 0 at the poles, gamma/factorial/loggamma raise there. Precisions 15..400 (3000 thorough). Metamorphic only at non-special real arguments. Not decided: single values off the (half-)integers, complex arguments, digamma and even-order polygamma values themselves.",
+   note=TB_B3 + " Known finding: superfac/hyperfac/barnesg lose relative accuracy above about 650 bits."),
+ "C19": dict(level="exploration", engine="B", technique="per-instance Coq certificates (vm_compute over Z for Bernoulli/Euler/Stirling rational values and Gaussian-rational modulus; interval for closed forms in PI/ln; Interval integral for Li2; metamorphic residual lemmas lin2/lin3 from coq_meta/Meta.v)",
+   text="zeta/altzeta/dirichlet at even and non-positive integers incl. exact trivial zeros; Dirichlet beta at odd/non-positive s; polylog orders 1, 0, -n (real and complex z) and 2 (special values plus integral on [-6,-1/8] and [1/8,15/16]); bernpoly/eulerpoly at dyadic x; Hurwitz zeta at s = -n and s = 2n; zeta'(0,a) (Lerch); two lerchphi closed forms. polylog s = 3..8 and lerchphi(z,s,1) are metamorphic only. NOT decided: generic real/complex s, derivatives, stieltjes, primezeta, siegeltheta, siegelz, riemannr, secondzeta, general lerchphi/polylog.",
+   note=TB_B3 + " Known findings: polylog(-n,z) series cancellation; bernpoly(2,x) near a root; Hurwitz Euler-Maclaurin absolute tolerance for a > 1."),
+ "C20": dict(level="exploration", engine="B", technique="per-instance certificates against elementary forms and proper Riemann integrals (Coquelicot RInt enclosed by Interval's integral_intro); improper tails cut at B with an assumed analytic tail bound; monotone-inverse certificate for erfinv; increments F(b)-F(a) = RInt as metamorphic certificates",
+   text="npdf; erf, erfi, erfc, ncdf (incl. tails to x = 20); fresnels, fresnelc; si; gammainc lower/upper/regularized at integer a (elementary), generalized gammainc(a,x0,x1) and upper gammainc at dyadic a >= 1; betainc at integer (exact rational) and dyadic a,b >= 1; e1, expint(n,x) for n >= 1; erfinv for |x| <= 0.9. Real arguments; p = 20/53 quick (100/200 thorough). e1, ei, si, ci, shi, chi, li, erfc increments and ci+e1 metamorphic only. Not decided: complex arguments, ei/ci/shi/chi/li values themselves, a < 1.",
+   note=TB_B3 + " Tail inequalities for the improper integrals are assumed, not proved."),
+ "C21": dict(level="exploration", engine="B", technique="Bessel-type integrals (besselj/besseli of integer order, angerj, webere, struveh/struvel n <= 2); half-integer closed forms with exact rational recurrence coefficients (besselj/y/i/k, hankel1/2, complex modulus); exact-rational alternating-series bracket for tiny arguments; zeros: closed form at v = 1/2 and certified sign change for integer v; metamorphic recurrences, J/Y and I/K Wronskians, Airy Wronskian, Gi+Hi = Bi",
+   text="Per-instance certificates for the call forms listed under technique at sampled arguments and precisions; the index of a zero is not certified; non-half-integer bessely/besselk/hankel, Airy/Scorer values, Kelvin, Coulomb, Lommel, besselyzero/airy zeros are not decided.",
+   note=TB_B3),
+ "C22": dict(level="exploration", engine="B", technique="per-instance Coq certificates (vm_compute over Z for exact rational references, Coq Interval for elementary closed forms, complex modulus lemma for spherharm, lin3 metamorphic lemmas from coq_meta/Meta.v); registry of 58 call forms",
+   text="Certified on the sampled instances of: orthogonal polynomials at integer degree <= 150 with dyadic argument/parameters; terminating pFq (p <= 4, q <= 3) with rational parameters, incl. the 'exact when representable' clause; legenp/legenq at integer degree/order; spherharm l <= 4; about 20 elementary special cases of 0F1/1F1/2F1 incl. |x| -> 1, x < -1 and asymptotic regimes. Contiguous relations only metamorphic. Not decided: hyperu, whit*, meijerg, appell*, hyper2d, pcf*; non-integer degree/order; complex inputs; generic non-terminating values.",
+   note=TB_B3 + " Six known findings on the unchanged tree (exact zeros raise; jacobi nan for negative-integer a with integer b; legendre tiny-x shortcut returns x; gegenbauer 0 next to a pole with a long parameter; hyper p > q+1 with terminating degree > prec raises or is inaccurate; terminating hyp2f1 at x = 1 not exact)."),
+ "C23": dict(level="exploration", engine="B", technique="Legendre-form integrals for ellipk/ellipe/ellipf/ellippi (parameter m < 1, incl. negative), elementary elliprc and degenerate elliprf/rd/rj/rg cases, general elliprf through Legendre's form, agm through Gauss's integral (assumed identity), lambertw branches 0 and -1 by a monotone-inverse bracket of w e^w",
+   text="ellipk, ellipe (complete/incomplete), ellipf, ellippi (complete/incomplete, n < 1); elliprc incl. principal value; elliprf(x,y,z); degenerate rd/rj/rg; agm(a,b) for a,b > 0; real lambertw on both real branches incl. neighbours of -1/e at every precision. Not covered: jtheta, ellipfun, kleinj, eta, q-conversions, qp/qgamma/qhyper, complex branches/arguments, generic rd/rj/rg.",
+   note=TB_B3),
+})
+
 NOT_APPLICABLE = {
 }
 
